@@ -10,6 +10,9 @@
    swallows).  The WHERE clause of an operation enters as its solution list
    (a field of the operation).  No proofs in this file. *)
 From RV Require Export Base.Quads.
+(* the model of evaluate.py (evalPart, top-down) and the bottom-up algebra of
+   property C04, used for WHERE clauses that are evaluated inside this model *)
+From RV Require Sparql.EvalTD.
 Local Open Scope N_scope.
 
 (* ------------------------------------------------------------------ *)
@@ -99,11 +102,14 @@ Inductive uop :=
 | DeleteWhere (t : tmpl) (omega : list sol)
 | Modify (w : option cid) (using_default using_named : bool)
          (del ins : option tmpl) (omega : list sol)
+| ModifyW (w : option cid) (usingd usingn : list cid)
+          (del ins : option tmpl) (where_ : Sparql.Algebra.alg)   (* WHERE evaluated by the model *)
 | Clear (silent : bool) (g : gspec)
 | Drop (silent : bool) (g : gspec)
 | Add (silent : bool) (src dst : gd)
 | Move (silent : bool) (src dst : gd)
-| Copy (silent : bool) (src dst : gd).
+| Copy (silent : bool) (src dst : gd)
+| Create (silent : bool) (c : cid).
 
 (* ------------------------------------------------------------------ *)
 (* _fillTemplate, _legal                                                *)
@@ -269,6 +275,58 @@ Definition evalModify (e : env) (k : N) (w : option cid) (ud : bool)
     let dg := match w with Some c => c | None => dflt e end in
     Ok (add_quads (m_all e true k dg ins omega) (del_quads (m_all e false k dg del omega) s)).
 
+(* ------------------------------------------------------------------ *)
+(* the WHERE clause evaluated inside the model                          *)
+
+Definition graph_at (c : cid) (a : qset) : Sparql.Algebra.graph := q_triples (None, None, None) c a.
+(* the named graphs: every graph other than the default graph that holds a quad
+   (a known graph without triples has no solution for a non-empty group) *)
+Definition named_of (a : qset) : list cid :=
+  filter (fun c => negb (N.eqb c 0)) (dedup N.eqb (map snd a)).
+Definition gname (c : cid) : term := GBASE + c.
+Definition named_graphs (cs : list cid) (a : qset) : list (term * Sparql.Algebra.graph) :=
+  map (fun c => (gname c, graph_at c a)) cs.
+Definition union_graph (a : qset) : Sparql.Algebra.graph := dedup triple_eqb (map fst a).
+(* USING <a> USING <b>: ctx.load copies the graphs into one scratch Graph *)
+Definition merge_graphs (cs : list cid) (a : qset) : Sparql.Algebra.graph :=
+  dedup triple_eqb (flat_map (fun c => graph_at c a) cs).
+
+(* ctx.graph as QueryContext.__init__ sets it *)
+Definition ctx_active (e : env) (a : qset) : Sparql.Algebra.graph :=
+  match e_fe e with
+  | FGraph k => graph_at k a
+  | FCG => if e_union e then union_graph a else graph_at 0 a
+  | FDS => graph_at 0 a     (* the Dataset object reads its default graph: default_union is False *)
+  end.
+
+(* the active graph evalModify evaluates WHERE on: USING replaces it by the
+   scratch graph; WITH pushes its graph only when there is no USING and no
+   USING NAMED; USING NAMED alone leaves ctx as it is *)
+Definition m_active (e : env) (w : option cid) (ud un : list cid) (a : qset) : Sparql.Algebra.graph :=
+  match ud with
+  | _ :: _ => merge_graphs ud a
+  | [] => match un, w with
+          | [], Some c => graph_at c a
+          | _, _ => ctx_active e a
+          end
+  end.
+
+(* ctx.dataset never changes: GRAPH sees every named graph of the store *)
+Definition m_ds (e : env) (w : option cid) (ud un : list cid) (a : qset) : Sparql.Algebra.dataset :=
+  {| Sparql.Algebra.ds_default := m_active e w ud un a;
+     Sparql.Algebra.ds_named := if has_dataset e then named_graphs (named_of a) a else [] |}.
+
+Definition m_omega (e : env) (w : option cid) (ud un : list cid) (p : Sparql.Algebra.alg) (a : qset) : list sol :=
+  Sparql.EvalTD.eval_td (m_ds e w ud un a) (m_active e w ud un a) [] p.
+
+Fixpoint uses_graph (p : Sparql.Algebra.alg) : bool :=
+  match p with
+  | Sparql.Algebra.BGP _ | Sparql.Algebra.Values _ => false
+  | Sparql.Algebra.Join _ a b | Sparql.Algebra.Union a b | Sparql.Algebra.Minus a b | Sparql.Algebra.LeftJoin _ a b _ => uses_graph a || uses_graph b
+  | Sparql.Algebra.Filter _ _ _ q | Sparql.Algebra.Extend _ q _ _ | Sparql.Algebra.Project q _ | Sparql.Algebra.Distinct q => uses_graph q
+  | Sparql.Algebra.Graph _ _ => true
+  end.
+
 (* _graphAll; None = ctx.dataset raised *)
 Definition graph_all (e : env) (g : gspec) (s : dstate) : option (list cid) :=
   match g with
@@ -329,11 +387,18 @@ Definition eval_op (e : env) (k : N) (o : uop) (s : dstate) : res :=
   | DeleteData ts qs => evalDeleteData e ts qs s
   | DeleteWhere tm om => evalDeleteWhere e k tm om s
   | Modify w ud _ d i om => evalModify e k w ud d i om s
+  | ModifyW w ud un d i p =>
+      (* evalGraph raises without a dataset, when list(res) is forced: before any write *)
+      if negb (has_dataset e) && uses_graph p then Raise s
+      else evalModify e k w (negb (is_nil ud)) d i (m_omega e w ud un p (quads s)) s
   | Clear sl g => silence sl (evalClear e g s)
   | Drop sl g => silence sl (evalDrop e g s)
   | Add sl a b => silence sl (evalAdd e a b s)
   | Move sl a b => silence sl (evalMove e a b s)
   | Copy sl a b => silence sl (evalCopy e a b s)
+  (* evalCreate: ctx.dataset (raises for a plain Graph), "already exists" for a
+     graph with triples, else "Create not implemented!": it always raises *)
+  | Create sl c => silence sl (Raise s)
   end.
 
 (* evalUpdate: operations in order, the first failure aborts the rest *)
@@ -417,6 +482,33 @@ Definition spec_clear (e : env) (g : gspec) (a : qset) : qset :=
   | GIri c => drop_graph c a
   end.
 
+(* the query dataset of SPARQL 1.1 Update 3.1.3: without USING / USING NAMED the
+   store's own dataset (default graph = the WITH graph if given, else the real
+   default graph or - switch on - the union of all graphs); with them: default
+   graph = merge of the USING graphs (empty if none), named graphs = the USING
+   NAMED graphs *)
+Definition s_active (e : env) (w : option cid) (ud un : list cid) (a : qset) : Sparql.Algebra.graph :=
+  match ud, un with
+  | [], [] => match w with
+              | Some c => graph_at c a
+              | None => match e_fe e with
+                        | FGraph k => graph_at k a
+                        | _ => if e_union e then union_graph a else graph_at 0 a
+                        end
+              end
+  | _, _ => merge_graphs ud a
+  end.
+Definition s_named (e : env) (ud un : list cid) (a : qset) : list cid :=
+  if has_dataset e then
+    match ud, un with
+    | [], [] => named_of a
+    | _, _ => filter (fun c => memb N.eqb c un) (named_of a)
+    end
+  else [].
+Definition s_omega (e : env) (w : option cid) (ud un : list cid) (p : Sparql.Algebra.alg) (a : qset) : list sol :=
+  Sparql.EvalBU.eval_bu {| Sparql.Algebra.ds_default := s_active e w ud un a; Sparql.Algebra.ds_named := named_graphs (s_named e ud un a) a |}
+             (s_active e w ud un a) p.
+
 Definition spec_op (e : env) (k : N) (o : uop) (a : qset) : qset :=
   match o with
   | InsertData ts qs => a ++ data_quads (dflt e) ts qs
@@ -424,6 +516,11 @@ Definition spec_op (e : env) (k : N) (o : uop) (a : qset) : qset :=
   | DeleteWhere tm om => qdiff a (s_all e false k (dflt e) (Some tm) om)
   | Modify w _ _ d i om =>
       let dg := match w with Some c => c | None => dflt e end in
+      qdiff a (s_all e false k dg d om) ++ s_all e true k dg i om
+  | ModifyW w ud un d i p =>
+      let dg := match w with Some c => c | None => dflt e end in
+      (* the store is a set of quads: the list is normalised before it is read *)
+      let om := s_omega e w ud un p (dedup quad_eqb a) in
       qdiff a (s_all e false k dg d om) ++ s_all e true k dg i om
   | Clear _ g | Drop _ g => spec_clear e g a
   | Add _ sg dg =>
@@ -435,6 +532,7 @@ Definition spec_op (e : env) (k : N) (o : uop) (a : qset) : qset :=
   | Move _ sg dg =>
       let s := gd_cid e sg in let d := gd_cid e dg in
       if N.eqb s d then a else drop_graph s (drop_graph d a ++ to_graph d (graph_of s a))
+  | Create _ _ => a          (* an empty graph more or less: no quad changes *)
   end.
 
 Fixpoint spec_from (e : env) (k : N) (ops : list uop) (a : qset) : qset :=
@@ -452,13 +550,23 @@ Definition needs_dataset (o : uop) : bool :=
   | Modify w ud un d i _ =>
       match w with Some _ => true | None => false end || ud || un
       || tm_has_quads d || tm_has_quads i
+  | ModifyW w ud un d i p =>
+      match w with Some _ => true | None => false end || negb (is_nil ud) || negb (is_nil un)
+      || tm_has_quads d || tm_has_quads i || uses_graph p
   | Clear _ g | Drop _ g => match g with GDefault => false | _ => true end
   | Add _ a b | Move _ a b | Copy _ a b =>
       match a, b with DDefault, DDefault => false | _, _ => true end
+  | Create _ _ => true
   end.
 
+(* CREATE without SILENT always fails in rdflib ("Create not implemented!");
+   the specification here has no failing operations: such requests are judged
+   for model = implementation only *)
+Definition hard_create (o : uop) : bool := match o with Create false _ => true | _ => false end.
+
 Definition in_scope (e : env) (ops : list uop) : bool :=
-  has_dataset e || forallb (fun o => negb (needs_dataset o)) ops.
+  (has_dataset e || forallb (fun o => negb (needs_dataset o)) ops)
+  && forallb (fun o => negb (hard_create o)) ops.
 
 (* ------------------------------------------------------------------ *)
 (* Equality of quad sets up to a renaming of the fresh blank nodes      *)
@@ -521,10 +629,37 @@ Definition iso_eqb (a b : qset) : bool :=
 (* ------------------------------------------------------------------ *)
 (* Known-finding trigger                                                *)
 
-(* F10f: DELETE WHERE { GRAPH ?g {...} } deletes nothing *)
+(* does the pattern read the active (default) graph? *)
+Fixpoint reads_default (p : Sparql.Algebra.alg) : bool :=
+  match p with
+  | Sparql.Algebra.BGP ts => negb (is_nil ts)
+  | Sparql.Algebra.Join _ a b | Sparql.Algebra.Union a b => reads_default a || reads_default b
+  | Sparql.Algebra.Graph _ _ => false
+  | _ => true
+  end.
+(* does the pattern address a named graph other than by the IRI of one of [un]? *)
+Fixpoint graphs_outside (un : list cid) (p : Sparql.Algebra.alg) : bool :=
+  match p with
+  | Sparql.Algebra.BGP _ => false
+  | Sparql.Algebra.Join _ a b | Sparql.Algebra.Union a b => graphs_outside un a || graphs_outside un b
+  | Sparql.Algebra.Graph (Sparql.Algebra.Tm t) q => negb (existsb (fun c => N.eqb (gname c) t) un) || graphs_outside un q
+  | _ => true
+  end.
+
+(* F10f: DELETE WHERE { GRAPH ?g {...} } deletes nothing.
+   F10i: USING NAMED does not restrict the WHERE dataset (the default graph is
+         not emptied, every named graph stays visible).
+   F10j: with the switch on a Dataset still reads only its real default graph *)
 Definition op_kf (e : env) (k : N) (o : uop) : N :=
   match o with
   | DeleteWhere tm om => if has_gvar tm && negb (is_nil om) then 1 else 0
+  | ModifyW w ud un d i p =>
+      if negb (has_dataset e) then 0
+      else if negb (is_nil ud) || negb (is_nil un) then
+        (if graphs_outside un p || (is_nil ud && reads_default p) then 2 else 0)
+      else if (match e_fe e with FDS => true | _ => false end) && e_union e
+              && (match w with None => true | Some _ => false end) && reads_default p then 3
+      else 0
   | _ => 0
   end.
 
